@@ -924,6 +924,8 @@ def coq_op(o):
     if n in ("set_lengths", "set_angles"):
         c = {"set_lengths": "OSetLengths", "set_angles": "OSetAngles"}[n]
         return "%s %s %s" % (c, cnat(o[1]), copt(o[2], cnat))
+    if n == "read_cell":
+        return "OReadCell %s" % cnat(o[1])
     if n == "set_vectors":
         return "OSetVectors %s %s %s" % (cnat(o[1]), copt(o[2], cnat), cbool(len(o) > 3 and o[3]))
     raise ValueError(n)
